@@ -70,6 +70,7 @@ type FuncContract struct {
 	Line      int
 	Trusted   string // reason, if the block is assumed rather than verified
 	MayPanic  bool   // extern: may panic (arbitrary user code)
+	Entry     []string // entry assumptions justified by meta-arguments (e.g. nolocks)
 }
 
 type PredDef struct {
@@ -284,6 +285,8 @@ func (cs *Contracts) LoadFile(path, pkgPath string) error {
 			cur.MayPanic = true
 		case "recovers":
 			cur.Recovers = true
+		case "entry":
+			cur.Entry = append(cur.Entry, strings.Fields(rest)...)
 		case "trusted":
 			cur.Trusted = rest
 		case "task":
